@@ -17,6 +17,7 @@ import (
 	"math/big"
 	"os"
 	"path/filepath"
+	"runtime"
 	"sort"
 	"strings"
 )
@@ -207,8 +208,8 @@ type Suite struct {
 	// BrokenTies: the engine itself found that the model can no longer be compared with the implementation
 	// (e.g. an internal write pattern changed); not a violation of a property
 	BrokenTies []string
-	samples   []interface{}
-	Rule      string
+	samples    []interface{}
+	Rule       string
 }
 
 type caseRec struct {
@@ -261,6 +262,19 @@ func (s *Suite) Fail(id int, what string, c interface{}, class string) {
 
 // Broken records that a correspondence can no longer be evaluated (reported by ./check as a broken tie).
 func (s *Suite) Broken(what string) { s.BrokenTies = append(s.BrokenTies, what) }
+
+// FinishOnPanic is deferred by every engine right after NewSuite: a panic of the library that reaches the engine's
+// main outside every guarded call must not lose what was generated so far, and is itself the report of a failing
+// input (the engine was in the middle of a case): the panic is recorded as a failure, with the stack, and the
+// suite is finished normally so that the cases already generated are evaluated.
+func (s *Suite) FinishOnPanic() {
+	if r := recover(); r != nil {
+		buf := make([]byte, 6000)
+		buf = buf[:runtime.Stack(buf, false)]
+		s.Fail(-1, fmt.Sprintf("the library panicked outside every guarded call of the engine: %v", r), map[string]interface{}{"stack": string(buf)}, "engine-aborted-by-library-panic")
+		s.Finish()
+	}
+}
 
 func (s *Suite) Finish() {
 	out := s.cfg.Out
